@@ -68,7 +68,7 @@ def _cond_short(case):
     return False
 
 
-V1_ENGINES = ("v1-proc", "v1-acker", "sandbox")
+V1_ENGINES = ("v1-proc", "v1-acker", "sandbox", "v1-par")
 
 
 def _surplus_acks(case):
